@@ -248,6 +248,55 @@ fn drain<I: Iterator<Item = u64>>(mut it: I, cap: usize) -> (Vec<u64>, Option<us
     }
 }
 
+/// Every provided Iterator method a range type could override (nth, skip, step_by, count, last, size_hint, fold, min, max)
+/// must agree with plain next(): same items, no panic.
+fn adapters<I: Iterator + Clone>(r: &mut Rep, sigbase: &str, case: &str, anchor: &str, it: I, rd: impl Fn(I::Item) -> u64 + Copy, expect: &[u64])
+where
+    I::Item: Ord,
+{
+    // adapters are applied to the range type itself (Map does not forward nth/count/last to the inner iterator)
+    let n = expect.len();
+    let mut bad = |what: &str, d: String| r.viol(&format!("{}|{}-disagrees-with-next-or-panics|{}", sigbase, what, anchor), case, &d);
+    match catch(|| it.clone().size_hint()) {
+        Ok((lo, hi)) if lo <= n && hi.map_or(true, |h| h >= n) => {}
+        o => bad("size_hint", format!("{:?} for {} items", o, n)),
+    }
+    if catch(|| it.clone().count()) != Ok(n) {
+        bad("count", format!("{:?} vs {}", catch(|| it.clone().count()), n));
+    }
+    if catch(|| it.clone().last().map(rd)) != Ok(expect.last().copied()) {
+        bad("last", String::new());
+    }
+    if catch(|| it.clone().fold(0u64, |a, x| a.wrapping_mul(31).wrapping_add(rd(x)))) != Ok(expect.iter().fold(0u64, |a, &x| a.wrapping_mul(31).wrapping_add(x))) {
+        bad("fold", String::new());
+    }
+    if catch(|| (it.clone().min().map(rd), it.clone().max().map(rd))) != Ok((expect.iter().copied().min(), expect.iter().copied().max())) {
+        bad("min/max", String::new());
+    }
+    let mut ks: Vec<usize> = vec![0, 1, 2, 3, n.saturating_sub(1), n, n + 1, n + 3, 2 * n + 5, 511, 512, 1 << 20, usize::MAX];
+    ks.sort_unstable();
+    ks.dedup();
+    for &k in &ks {
+        // nth(k), then the remainder
+        let g = catch(|| {
+            let mut j = it.clone();
+            let x = j.nth(k).map(rd);
+            let rest: Vec<u64> = j.take(n + 2).map(rd).collect();
+            (x, rest)
+        });
+        let exp_rest: Vec<u64> = if k < n { expect[k + 1..].to_vec() } else { Vec::new() };
+        if g != Ok((expect.get(k).copied(), exp_rest)) {
+            bad("nth", format!("k={} got {:x?}", k, g.map(|(x, rest)| (x, rest.len()))));
+        }
+        if catch(|| it.clone().skip(k).take(n + 2).map(rd).collect::<Vec<u64>>()) != Ok(expect.iter().copied().skip(k).collect()) {
+            bad("skip", format!("k={}", k));
+        }
+        if k >= 1 && catch(|| it.clone().step_by(k).take(n + 2).map(rd).collect::<Vec<u64>>()) != Ok(expect.iter().copied().step_by(k).collect()) {
+            bad("step_by", format!("k={}", k));
+        }
+    }
+}
+
 fn anchor_name(last: u64, size: u64, physical: bool) -> &'static str {
     if physical {
         if last == (1u64 << 52) - size {
@@ -279,6 +328,11 @@ pub fn range_case<S: PageSize>(r: &mut Rep, kind: &str, start: u64, end: u64) {
         0
     };
     let cap = n as usize + 3;
+    let last = if inclusive { end } else { end.wrapping_sub(size) };
+    let case = format!("range {} {} {:#x} {:#x}", kind, S::DEBUG_STR, start, end);
+    let sigbase = format!("C07|{}<{}>", kind, S::DEBUG_STR);
+    let anchor = if n > 0 { anchor_name(last, size, physical) } else { "empty" };
+    let expect: Vec<u64> = (0..n).map(|i| start + i * size).collect();
     let (items, panicked, len, sz, empty): (Vec<u64>, Option<usize>, Result<u64, ()>, Result<u64, ()>, Result<bool, ()>) =
         match kind {
             "PageRange" => {
@@ -287,6 +341,9 @@ pub fn range_case<S: PageSize>(r: &mut Rep, kind: &str, start: u64, end: u64) {
                     Page::from_start_address(va(end)).unwrap(),
                 );
                 let (i, p) = drain(rg.map(|p| p.start_address().as_u64()), cap);
+                if n <= 80 {
+                    adapters(r, &sigbase, &case, anchor, rg, |p| p.start_address().as_u64(), &expect);
+                }
                 (i, p, catch(|| rg.len()), catch(|| rg.size()), catch(|| rg.is_empty()))
             }
             "PageRangeInclusive" => {
@@ -295,6 +352,9 @@ pub fn range_case<S: PageSize>(r: &mut Rep, kind: &str, start: u64, end: u64) {
                     Page::from_start_address(va(end)).unwrap(),
                 );
                 let (i, p) = drain(rg.map(|p| p.start_address().as_u64()), cap);
+                if n <= 80 {
+                    adapters(r, &sigbase, &case, anchor, rg, |p| p.start_address().as_u64(), &expect);
+                }
                 (i, p, catch(|| rg.len()), catch(|| rg.size()), catch(|| rg.is_empty()))
             }
             "PhysFrameRange" => {
@@ -303,6 +363,9 @@ pub fn range_case<S: PageSize>(r: &mut Rep, kind: &str, start: u64, end: u64) {
                     PhysFrame::from_start_address(pa(end)).unwrap(),
                 );
                 let (i, p) = drain(rg.map(|p| p.start_address().as_u64()), cap);
+                if n <= 80 {
+                    adapters(r, &sigbase, &case, anchor, rg, |p| p.start_address().as_u64(), &expect);
+                }
                 (i, p, catch(|| rg.len()), catch(|| rg.size()), catch(|| rg.is_empty()))
             }
             "PhysFrameRangeInclusive" => {
@@ -311,14 +374,14 @@ pub fn range_case<S: PageSize>(r: &mut Rep, kind: &str, start: u64, end: u64) {
                     PhysFrame::from_start_address(pa(end)).unwrap(),
                 );
                 let (i, p) = drain(rg.map(|p| p.start_address().as_u64()), cap);
+                if n <= 80 {
+                    adapters(r, &sigbase, &case, anchor, rg, |p| p.start_address().as_u64(), &expect);
+                }
                 (i, p, catch(|| rg.len()), catch(|| rg.size()), catch(|| rg.is_empty()))
             }
             _ => unreachable!(),
         };
     r.ev(n > 0);
-    let last = if inclusive { end } else { end.wrapping_sub(size) };
-    let case = format!("range {} {} {:#x} {:#x}", kind, S::DEBUG_STR, start, end);
-    let sigbase = format!("C07|{}<{}>", kind, S::DEBUG_STR);
     if let Some(at) = panicked {
         let when = if at as u64 == n { "after-last-item" } else if at as u64 + 1 == n { "yielding-last-item" } else { "mid-range" };
         r.viol(
@@ -328,7 +391,6 @@ pub fn range_case<S: PageSize>(r: &mut Rep, kind: &str, start: u64, end: u64) {
         );
         return;
     }
-    let expect: Vec<u64> = (0..n).map(|i| start + i * size).collect();
     if items != expect {
         r.viol(
             &format!("{}|wrong-items", sigbase),
@@ -537,6 +599,50 @@ pub fn run(a: &Args) {
         for &y in &pv {
             arith_phys_diff(&mut r, x, y);
         }
+    }
+    if a.thorough() {
+        // wide x small and small x wide: every value with <=3 set / <=3 clear bits / run of ones on one side
+        let wide = b64_wide();
+        let mut wc: Vec<u64> = wide.iter().map(|&x| sext48(x)).collect();
+        wc.sort_unstable();
+        wc.dedup();
+        let mut wp: Vec<u64> = wide.iter().map(|&x| x & ((1u64 << 52) - 1)).collect();
+        wp.sort_unstable();
+        wp.dedup();
+        let so = b64_small();
+        for (i, &x) in wc.iter().enumerate() {
+            if i % a.nshards == a.shard {
+                for &o in &so {
+                    for op in OPS {
+                        arith_virt(&mut r, op, x, o);
+                    }
+                }
+            }
+        }
+        for (i, &x) in wp.iter().enumerate() {
+            if i % a.nshards == a.shard {
+                for &o in &so {
+                    for op in OPS {
+                        arith_phys(&mut r, op, x, o);
+                    }
+                }
+            }
+        }
+        for (i, &o) in wide.iter().enumerate() {
+            if i % a.nshards == a.shard {
+                for &x in &canon_small() {
+                    for op in OPS {
+                        arith_virt(&mut r, op, x, o);
+                    }
+                }
+                for &x in &phys_small() {
+                    for op in OPS {
+                        arith_phys(&mut r, op, x, o);
+                    }
+                }
+            }
+        }
+        r.note("thorough: additionally (every address with <=3 set bits / <=3 clear bits / one run of ones) x small boundary offsets, and small boundary addresses x every such offset");
     }
     sweep_pages::<Size4KiB>(&mut r, a);
     sweep_pages::<Size2MiB>(&mut r, a);
